@@ -105,13 +105,16 @@ class LogfileHandler(mlzlog.LogfileHandler):
     def doRollover(self):
         super().doRollover()
         if self.max_days:
-            # keep only the last max_days log files (the date in the name sorts chronologically)
+            # keep the file being written and the (max_days - 1) newest earlier log files
+            # (the date in the name sorts chronologically). files with a later date
+            # are not touched: they must not push the current file out of the list
             prefix = self.rootname + '-'
             with os.scandir(dirname(self.baseFilename)) as it:
                 files = sorted(entry.path for entry in it
                                if entry.is_file() and entry.name.startswith(prefix)
-                               and entry.name.endswith('.log'))
-            for filepath in files[:-self.max_days]:
+                               and entry.name.endswith('.log')
+                               and entry.path < self.baseFilename)
+            for filepath in files[:max(0, len(files) - (self.max_days - 1))]:
                 os.remove(filepath)
 
 
